@@ -223,6 +223,19 @@ impl Workspace {
     }
 }
 
+#[cfg(oxlip_verif)]
+impl Workspace {
+    /// Verification hook: the server-side text of a document, if stored.
+    pub fn verif_text(&self, loc: &Locator) -> Option<&str> {
+        self.docs.get(loc).map(String::as_str)
+    }
+
+    /// Verification hook: the pending errors.
+    pub fn verif_errors(&self) -> Vec<(Span, String)> {
+        self.errors.clone().unwrap_or_default()
+    }
+}
+
 struct WorkspaceLoader<'a>(&'a mut Workspace);
 
 impl Loader<anyhow::Error> for WorkspaceLoader<'_> {
